@@ -267,12 +267,18 @@ class Session:
             raise HarnessError(f"unknown op kind {kind}")
         w = self.world
         self.step += 1
+        # the library never sees the objects the op log is made of: what is logged (and later replayed) is the op as it was
+        # generated, whatever the library does to the values handed to it
+        import copy as _copy
+
+        logged = _copy.deepcopy(op)
+        op = _copy.deepcopy(op)
         # operands present?
         missing = [n for n in spec.operands(op) if n not in w.h]
         outs = [n for n in spec.outputs(op) if n in w.h]
         if missing or outs:
             self.events.append((self.step, kind, "skip"))
-            self.oplog.append(op)
+            self.oplog.append(logged)
             return []
         pre = dict(w.snaps)
         import signal
@@ -300,7 +306,7 @@ class Session:
                 _ARMED[0] = False
                 signal.setitimer(signal.ITIMER_REAL, 0)
                 signal.signal(signal.SIGALRM, old_handler)
-        self.oplog.append(op)
+        self.oplog.append(logged)
         if out.skipped:
             self.events.append((self.step, kind, "skip2"))
             return []
